@@ -154,30 +154,73 @@ Theorem C17_consumers_agree :
 Proof. exact consumers_agree. Qed.
 Print Assumptions C17_consumers_agree.
 
-(* well-formedness of the XML text: quick-junit's XmlString filter versus the XML 1.0 Char
-   production. The full statement is refuted (finding F13); outside the two BMP non-characters
-   every kept scalar value is a legal XML character *)
-Theorem C17_xml_chars_refuted :
-  exists c, is_scalar c = true /\ xmlstring_keeps c = true /\ xml_char c = false.
-Proof. exact xmlstring_not_wellformed_witness. Qed.
-Print Assumptions C17_xml_chars_refuted.
+(* well-formedness of the XML text. Every stored string goes through xml_safe (junit.rs, the
+   repair of finding F13): quick-junit's XmlString::new (strip_ansi_escapes::strip_str -- the vte
+   state machine, modelled byte for byte --, then the C0 filter), then removal of U+FFFE/U+FFFF
+   and XmlString::new again. For EVERY Rust string (any length; escape sequences complete or not,
+   controls, non-characters, U+FFFD from invalid UTF-8) every character of the stored text is an
+   XML 1.0 Char:  #x9 | #xA | #xD | [#x20-#xD7FF] | [#xE000-#xFFFD] | [#x10000-#x10FFFF] *)
+Theorem C17_stored_text_xml_chars :
+  forall s : str, forallb is_scalar s = true -> forallb xml_char (stored_text s) = true.
+Proof. exact stored_text_xml_chars. Qed.
+Print Assumptions C17_stored_text_xml_chars.
 
-Theorem C17_xml_chars_outside_known :
+(* the stored text consists of characters of the captured string (and possibly U+FFFD, which the
+   escape stripper writes for a character cut in two by the byte 0x9C ending a DCS string), each
+   of which the per-character filter keeps; and it never contains U+FFFE / U+FFFF, whatever
+   (scalar or not) the input is made of *)
+Theorem C17_stored_text_only_deletes :
+  forall s x, In x (stored_text s) -> (x = 65533 \/ In x s) /\ nextest_keeps x = true.
+Proof. exact stored_text_out. Qed.
+Print Assumptions C17_stored_text_only_deletes.
+
+Theorem C17_stored_text_no_nonchar :
+  forall s, existsb known_nonchar (stored_text s) = false.
+Proof. exact stored_text_no_nonchar. Qed.
+Print Assumptions C17_stored_text_no_nonchar.
+
+(* the order of the stages is harmless: no ESC survives the first XmlString::new, so removing
+   the two non-characters cannot assemble a new escape sequence, and the second XmlString::new
+   changes nothing *)
+Theorem C17_stored_text_is_filter :
+  forall s, stored_text s = filter (fun c => negb (known_nonchar c)) (xmlstring_new s).
+Proof. exact stored_text_is_filter. Qed.
+Print Assumptions C17_stored_text_is_filter.
+
+(* on text without ESC the whole pipeline is the per-character filter nextest_keeps *)
+Theorem C17_stored_text_esc_free :
+  forall s, forallb (fun c => negb (c =? 27)) s = true -> stored_text s = filter nextest_keeps s.
+Proof. exact stored_text_esc_free. Qed.
+Print Assumptions C17_stored_text_esc_free.
+
+(* regression witnesses, about quick-junit's XmlString::new ALONE (what nextest relied on before
+   a19c0df; formerly finding F13): it keeps U+FFFF, which is not an XML 1.0 Char; outside the two
+   BMP non-characters every scalar it keeps is legal *)
+Theorem C17_xmlstring_alone_refuted :
+  (exists c, is_scalar c = true /\ xmlstring_keeps c = true /\ xml_char c = false)
+  /\ (exists s, forallb is_scalar s = true /\ forallb xml_char (xmlstring_new s) = false
+                /\ forallb xml_char (stored_text s) = true).
+Proof. exact (conj xmlstring_alone_not_wellformed_witness xmlstring_alone_not_wellformed_text). Qed.
+Print Assumptions C17_xmlstring_alone_refuted.
+
+Theorem C17_xmlstring_alone_outside_nonchars :
   forall c, is_scalar c = true -> known_nonchar c = false ->
             xmlstring_keeps c = true -> xml_char c = true.
 Proof. exact xmlstring_outside_known. Qed.
-Print Assumptions C17_xml_chars_outside_known.
+Print Assumptions C17_xmlstring_alone_outside_nonchars.
 
-(* exactly what the filter keeps, and the legal characters it loses (TAB and CR: removed by the
-   escape stripper before the replace() filter that would have kept them sees them) *)
+(* exactly what the repaired pipeline keeps outside escape sequences, and the legal characters it
+   loses (TAB, CR, C1 controls: removed by the escape stripper before the replace() filter that
+   would have kept them sees them) *)
 Theorem C17_xml_chars_kept :
-  forall c, xmlstring_keeps c = true <-> (32 <= c \/ c = 10).
-Proof. exact xmlstring_keeps_spec. Qed.
+  forall c, nextest_keeps c = true <->
+            (c = 10 \/ (32 <= c /\ ~ (128 <= c <= 159) /\ c <> 65534 /\ c <> 65535)).
+Proof. exact nextest_keeps_spec. Qed.
 Print Assumptions C17_xml_chars_kept.
 
 Theorem C17_xml_chars_lost :
-  forall c, (xml_char c = true /\ xmlstring_keeps c = false) <-> (c = 9 \/ c = 13).
-Proof. exact xmlstring_lost_chars. Qed.
+  forall c, (xml_char c = true /\ nextest_keeps c = false) <-> (c = 9 \/ c = 13 \/ 128 <= c <= 159).
+Proof. exact nextest_lost_chars. Qed.
 Print Assumptions C17_xml_chars_lost.
 
 (* ------------------------------------------------------------------ non-vacuity (closed) *)
@@ -261,3 +304,22 @@ Example C17_example_kind_vs_stats :
   /\ exec_failed (run_stats 1 [JTestFinished bA t2 a_exec [a_fail] false true]) = 0
   /\ failed (run_stats 1 [JTestFinished bA t2 a_exec [a_fail] false true]) = 1.
 Proof. vm_compute. auto. Qed.
+
+(* the escape stripper on strings: a colour sequence, an OSC title, an unterminated CSI that
+   swallows the rest, LF executed inside a sequence, and the byte 0x9C of U+1720 (E1 9C A0) ending
+   a DCS passthrough in the middle of the character: the orphaned A0 is written as U+FFFD *)
+Example C17_example_ansi_strip :
+  ansi_strip [27; 91; 51; 49; 109; 114; 101; 100; 27; 91; 48; 109; 33] = [114; 101; 100; 33]
+  /\ ansi_strip [97; 27; 93; 48; 59; 116; 7; 98] = [97; 98]
+  /\ ansi_strip [97; 27; 91; 98; 99] = [97; 99]
+  /\ ansi_strip [97; 27; 91; 51; 10; 49] = [97; 10]
+  /\ ansi_strip [27; 80; 113; 5920; 65] = [65533; 65]
+  /\ ansi_strip [9; 65; 13; 155; 66; 10] = [65; 66; 10].
+Proof. vm_compute. repeat split. Qed.
+
+(* the repaired pipeline on a string with both non-characters, one of them inside an escape sequence *)
+Example C17_example_stored_text :
+  xmlstring_new [65; 65535; 27; 65534; 91; 51; 49; 109; 66] = [65; 65535; 66]
+  /\ stored_text [65; 65535; 27; 65534; 91; 51; 49; 109; 66] = [65; 66]
+  /\ forallb xml_char (stored_text [65; 65535; 27; 65534; 91; 51; 49; 109; 66]) = true.
+Proof. vm_compute. repeat split. Qed.
